@@ -128,41 +128,84 @@ fn find(blocks: &[Vec<u8>], limb: &[u8; 8]) -> bool {
     blocks.iter().any(|b| b.windows(8).any(|w| w == limb))
 }
 
-/// drop observation for one value. `secrets`: its secret scalars; `vec_backed`: secrets living in an inner Vec
+/// drop observation for one value. `secrets`: its secret scalars; `vec_backed`: secrets living in an inner Vec.
+///
+/// Where the secrets live inside the value's own block is learnt from the control (the same content freed
+/// WITHOUT its destructor): the offsets at which a COMPLETE secret scalar lies. After the real drop exactly
+/// those places must not hold a limb of it any more. Other bytes of the struct block are not examined:
+/// padding bytes are copied around by moves and may carry stale bytes (observed: 15 bytes of an earlier
+/// temporary of the same nonce in the trailing padding of a `SigningNonces`) that the value never owned and
+/// no destructor can reach. Blocks of another size (buffers owned by the value) must not show a limb anywhere.
 fn observe_drop<C: Suite, T: Clone>(ctx: &mut Ctx, name: &str, value: &T, secrets: &[Sc<C>], vec_backed: bool, desc: &str) -> CheckResult {
-    let mut reprs: Vec<Vec<u8>> = secrets.iter().map(raw::<C>).collect();
-    // the canonical encodings as well (a wiped value must not linger in encoded form either)
-    reprs.extend(secrets.iter().map(sc_bytes::<C>));
-    let lm = limbs(&reprs);
-    if lm.is_empty() {
+    let raws: Vec<Vec<u8>> = secrets.iter().map(raw::<C>).collect();
+    let raw_limbs = limbs(&raws);
+    if raw_limbs.is_empty() {
         ctx.discard();
         return Ok(());
     }
+    // in owned buffers the canonical encodings must not linger either
+    let mut reprs = raws.clone();
+    reprs.extend(secrets.iter().map(sc_bytes::<C>));
+    let lm = limbs(&reprs);
+    let tsize = std::mem::size_of::<T>();
     ctx.eval(&format!("drop,{name},{desc}"), true);
     // control: the same content freed WITHOUT running the destructor must show the secret
-    let seen_control = {
+    let mut inline_pos: Vec<(usize, usize)> = Vec::new();
+    {
         let boxed = black_box(Box::new(ManuallyDrop::new(value.clone())));
-        let (_, blocks) = capture(move || drop(black_box(boxed)));
-        let mut blocks = blocks;
-        if vec_backed {
+        let (_, mut blocks) = capture(move || drop(black_box(boxed)));
+        if let Some(image) = blocks.iter().rev().find(|b| b.len() == tsize) {
+            for (k, r) in raws.iter().enumerate() {
+                if limbs(std::slice::from_ref(r)).is_empty() || r.len() > image.len() {
+                    continue;
+                }
+                for o in 0..=(image.len() - r.len()) {
+                    if image[o..o + r.len()] == r[..] {
+                        inline_pos.push((k, o));
+                    }
+                }
+            }
+        }
+        let seen_control = if vec_backed {
             let v: Vec<Sc<C>> = black_box(secrets.to_vec());
             let (_, b2) = capture(move || drop(black_box(v)));
             blocks.extend(b2);
+            raw_limbs.iter().all(|l| find(&blocks, l))
+        } else {
+            // every secret scalar with content was located as a whole inside the value's block
+            raws.iter().enumerate().all(|(k, r)| limbs(std::slice::from_ref(r)).is_empty() || inline_pos.iter().any(|(kk, _)| *kk == k))
+        };
+        if !seen_control {
+            return Err(inconclusive(format!("C20 control did not see the secret of {name} in freed memory: the observation is void")));
         }
-        // only limbs of the in-memory representation are expected in the control
-        let raw_limbs = limbs(&secrets.iter().map(raw::<C>).collect::<Vec<_>>());
-        !raw_limbs.is_empty() && raw_limbs.iter().all(|l| find(&blocks, l))
-    };
-    if !seen_control {
-        return Err(inconclusive(format!("C20 control did not see the secret of {name} in freed memory: the observation is void")));
     }
     ctx.label(&format!("drop-control-saw-secret:{name}"));
     // the real thing
     let boxed = black_box(Box::new(value.clone()));
     let (_, blocks) = capture(move || drop(black_box(boxed)));
     ensure!(ctx, !blocks.is_empty(), "C20/harness", "no block was freed when dropping a boxed {name}");
-    for l in &lm {
-        ensure!(ctx, !find(&blocks, l), &format!("C20/secret-left-after-drop/{name}"), "after dropping a {name} a limb of its secret scalar ({}) is still present in the storage it occupied ({desc})", hex::encode(l));
+    for b in &blocks {
+        if b.len() == tsize {
+            for (k, o) in &inline_pos {
+                for (i, chunk) in raws[*k].chunks_exact(8).enumerate() {
+                    if chunk.iter().filter(|x| **x != 0).count() < 6 {
+                        continue;
+                    }
+                    let at = o + 8 * i;
+                    ensure!(
+                        ctx,
+                        b[at..at + 8] != *chunk,
+                        &format!("C20/secret-left-after-drop/{name}"),
+                        "after dropping a {name} a limb of its secret scalar ({}) is still present in the storage it occupied (offset {at} of the {tsize}-byte value; {desc})",
+                        hex::encode(chunk)
+                    );
+                }
+            }
+        } else {
+            for l in &lm {
+                ensure!(ctx, !find(std::slice::from_ref(b), l), &format!("C20/secret-left-after-drop/{name}"), "after dropping a {name} a limb of its secret scalar ({}) is still present in a {}-byte buffer it owned ({desc})", hex::encode(l), b.len());
+            }
+        }
     }
     ctx.label(&format!("drop:{name}"));
     Ok(())
